@@ -9,7 +9,8 @@
    Model/C18Spec.v (chk_C18, the checker run on every trace). *)
 From Coq Require Import List NArith Bool.
 From Mdns Require Import Res Bytes Rec Intf IntfCache Responder ResponderSpec IntfDaemon C18Spec
-     IntfProofs IntfCacheProofs IntfDaemonProofs ResponderProofs C18Witness.
+     IntfProofs IntfCacheProofs IntfDaemonProofs ResponderProofs IntfHistoryProofs IntfRemovalProofs
+     ResponderWitness C18Witness.
 Import ListNotations.
 Open Scope N_scope.
 
@@ -45,8 +46,8 @@ Proof. exact resolve_addr_absent. Qed.
 
 (* the interface table: after apply_intf_selections an (interface, address) pair named by the
    table is held iff its last matching selection enables it; other pairs are untouched *)
-Theorem C18_interface_table_after_apply : forall d tbl idx a,
-  let d' := fst (apply_intf_selections d tbl) in
+Theorem C18_interface_table_after_apply : forall now d tbl idx a,
+  let d' := fst (apply_intf_selections now d tbl) in
   held (d_intfs d') idx a =
   match find (fun e => key_is e idx a) (rev tbl) with
   | Some e => last_match (d_sels d) e
@@ -58,8 +59,8 @@ Proof. exact interface_table_after_apply. Qed.
 (* ... and after every IP check the daemon holds EXACTLY the pairs of the OS table whose last
    matching selection enables them, whatever it held before and whenever the selections were
    made: selections also govern interfaces that show up later, and what disappeared is dropped *)
-Theorem C18_interface_table_after_check : forall d idx a,
-  let d' := fst (check_ip_changes d) in
+Theorem C18_interface_table_after_check : forall now d idx a,
+  let d' := fst (check_ip_changes now d) in
   held (d_intfs d') idx a =
   match find (fun e => key_is e idx a) (rev (d_os d)) with
   | Some e => last_match (d_sels d) e
@@ -182,35 +183,110 @@ Theorem C18_record_keeps_first_interface : forall r src records a,
   In a records -> crec_matches a r src = true -> insert_rec r src records = records.
 Proof. exact insert_keeps_first_attribution. Qed.
 
-(* ---- whole histories ------------------------------------------------------------------------------------ *)
+(* ---- whole histories (theorems over ALL histories of Model/IntfDaemon.v, by induction over the
+        list of steps; definitions in Proofs/IntfHistoryProofs.v) ----------------------------------------
 
-(* The full statement
-     forall t0 os steps, chk_C18 os (model_history t0 os steps) = true
-   ("in every history every packet leaves only on an enabled interface that has the carried
-   addresses in its subnets, IpAdd / IpDel only for (un)selected addresses") is FALSE of the
-   faithful model: a disable call made while the OS momentarily does not report an interface the
-   daemon still holds is not applied to it (finding C18-selection-while-absent): *)
+   A history is an initial OS table and a list of steps (each: optional new OS table, datagrams,
+   calls enable / disable / register / unregister / set_ip_check_interval / browse, the time; the
+   model adds the due retransmissions and the IP check).  Hypotheses:
+     uniq_keys / wf_steps : the OS reports an (interface, address) pair at most once per table;
+     known_class = false  : at no step does the OS report again a pair the daemon still holds and
+                            the selections made meanwhile disable (finding C18-selection-while-absent).
+   Inv seen d (the invariant): the OS table has unique keys; my_intfs has one entry per index;
+   every held pair that the OS reports is enabled by its last matching selection; the OS table and
+   every held pair are among the pairs reported so far (`seen`); every goodbye waiting for its
+   repetition was built for its interface (family, and address records at home there).
+   pkt_just seen os sels p (why a packet may leave): there are an interface entry `intf` and an
+   address a of it with the family of the packet such that: if the OS table `os` reports
+   (intf, a), its last matching selection in `sels` enables it; the packet leaves on `intf`
+   (egress_if); every address record of the packet is `ip_octets x` for an address x lying in the
+   subnet of an address the OS has reported for that interface (seen_rec).
+   run_just: in every iteration every packet satisfies pkt_just with the OS table of that
+   iteration and one of the selection lists in force during it (before / between / after its
+   enable and disable calls). *)
+
+(* the invariant holds initially and in every reachable state *)
+Theorem C18_invariant_initial : forall t0 os0, uniq_keys os0 -> Inv os0 (initial_state t0 os0).
+Proof. exact Inv_initial. Qed.
+
+Theorem C18_invariant_reachable : forall steps seen d,
+  Inv seen d -> wf_steps steps -> known_class d steps = false ->
+  Inv (seen_after seen d steps) (state_after d steps).
+Proof. exact invariant_reachable. Qed.
+
+(* one step preserves it and emits only justified packets *)
+Theorem C18_step_preserves_invariant : forall seen d s, Inv seen d ->
+  (forall tbl, st_os s = Some tbl -> uniq_keys tbl /\ hazard d tbl = false) ->
+  let cur := match st_os s with Some tbl => tbl | None => d_os d end in
+  let seen' := add_seen seen cur in
+  Inv seen' (fst (iterate d s)) /\
+  Forall (obs_just seen' cur (sel_states (d_sels d) cur (st_calls s))) (snd (iterate d s)).
+Proof. exact iterate_ok. Qed.
+
+(* (1) every packet emitted in any history outside the known class leaves on an interface the
+       daemon holds, of a family that interface has, enabled by the last matching selection (if
+       the OS reports it), and carries only addresses of that link *)
+Theorem C18_every_packet_justified : forall t0 os0 steps,
+  uniq_keys os0 -> wf_steps steps -> known_class (initial_state t0 os0) steps = false ->
+  run_just os0 (initial_state t0 os0) steps.
+Proof. exact history_packets_justified. Qed.
+
+(* the known class is not empty, and there the checker rejects the model's own trace *)
+Theorem C18_known_class_witness :
+  uniq_keysb os_w2 = true /\ wf_stepsb h_absent = true /\ known_class (initial_state t0 os_w2) h_absent = true.
+Proof. exact h_absent_in_class. Qed.
+
 Theorem C18_history_refuted_selection_while_absent :
   chk_C18 os_w2 (model_history t0 os_w2 h_absent) = false.
 Proof. exact h_absent_refutes. Qed.
 
+(* non-vacuity of (1): a history with three kinds of selections, automatic and fixed addresses, an
+   interface that disappears and one that shows up later, and an unregistration meets the
+   hypotheses (and emits packets and IpAdd / IpDel events: C18_history_example) *)
+Example C18_history_hypotheses_example :
+  uniq_keysb os_ok = true /\ wf_stepsb h_ok = true /\ known_class (initial_state t0 os_ok) h_ok = false.
+Proof. exact h_ok_hyps. Qed.
+
 (* the repeated goodbye (120 ms after unregister) leaves through the interface it was built for
-   (repaired in /repo, 694086c; before, it left wherever the IPv4 socket was last pointed at):
-   the witness history is accepted and its two repetitions leave on interfaces 2 and 3 *)
+   (repaired in /repo, 694086c): the witness history meets the hypotheses, is accepted by the
+   checker, and its two repetitions leave on interfaces 2 and 3 *)
 Example C18_goodbye_repeat_on_its_interface :
+  (uniq_keysb os_w1 = true /\ wf_stepsb h_goodbye = true /\ known_class (initial_state t0 os_w1) h_goodbye = false) /\
   chk_C18 os_w1 (model_history t0 os_w1 h_goodbye) = true /\
   last_ifs (run (initial_state t0 os_w1) h_goodbye) = [2; 3].
-Proof. exact h_goodbye_checked. Qed.
+Proof. exact (conj h_goodbye_hyps h_goodbye_checked). Qed.
 
-(* C18_history_partial: outside this class the history-level statement is established
-   through its components above (selection law, interface table after apply / check, subnet
-   filter of announcements, goodbyes and responses) and checked by chk_C18 on every trace of
-   model and implementation; the induction over whole histories of Model/IntfDaemon.v that would
-   combine them into one theorem is NOT mechanised. *)
+(* (2) nothing outlives its removal: after an IP check, in ANY state (hence in every history), no
+       record of the cache (PTR, SRV, TXT, address, NSEC) is attributed to an interface the check
+       removed (held, none of its addresses reported any more) *)
+Theorem C18_check_forgets_removed_interfaces : forall now d m, gone d m ->
+  no_src (d_cache (fst (check_ip_changes now d))) (mkIntfId (mi_name m) (mi_index m)).
+Proof. exact check_forgets_removed_interfaces. Qed.
 
-(* Non-vacuity: selections of three kinds, a service with automatic and one with fixed addresses,
-   an interface that disappears and one that shows up later, an unregistration: the checker
-   accepts the model's trace, packets are sent and IpAdd / IpDel events are reported. *)
+(* non-vacuity of (2): three records learned on eth1; eth1 disappears; the check empties the cache
+   and reports IpDel and ServiceRemoved *)
+Example C18_removal_example :
+  gone d_before_removal m_eth1 /\ cache_size (d_cache d_before_removal) = 3%nat /\
+  cache_size (d_cache (fst (check_ip_changes (t0 + 1000) d_before_removal))) = 0%nat /\
+  snd (check_ip_changes (t0 + 1000) d_before_removal)
+  = [OIpDel (ip4 10 2 0 10); ORemoved (r_name ptr_peer) (r_name srv_peer)].
+Proof. exact removal_example. Qed.
+
+(* (3) C18_checker_accepts_every_run_partial.  The full statement
+         forall t0 os0 steps, uniq_keys os0 -> wf_steps steps ->
+           known_class (initial_state t0 os0) steps = false ->
+           chk_C18 os0 (model_history t0 os0 steps) = true
+       is NOT mechanised.  What is proved instead is C18_every_packet_justified, whose pkt_just is
+       the packet part of chk_C18 (addrs_ok / enabled_ok) stated on the model's side; missing for
+       the checker's verdict itself: (a) the round trip ip_of_octets (ip_octets a) = a, which needs
+       width hypotheses on every address of the history, (b) for IPv4 the identification of the
+       reported interface (owner of the source address in the OS table) with the interface the
+       daemon means, which needs "an IPv4 address is never reported on two interfaces", and (c) the
+       IpAdd / IpDel conditions of chk_C18.  chk_C18 is run on every trace of model and
+       implementation by ./check C18. *)
+
+(* Non-vacuity: the checker accepts the model's trace of the example history, packets are sent and
+   IpAdd / IpDel events are reported. *)
 Example C18_history_example :
   chk_C18 os_ok (model_history t0 os_ok h_ok) = true /\
   (0 <? N.of_nat (count_sent (run (initial_state t0 os_ok) h_ok))) = true /\
@@ -237,6 +313,14 @@ Print Assumptions C18_intf_removal_cache_contents.
 Print Assumptions C18_intf_removal_reports_modified.
 Print Assumptions C18_disabled_family_addresses_dropped.
 Print Assumptions C18_record_keeps_first_interface.
+Print Assumptions C18_invariant_initial.
+Print Assumptions C18_invariant_reachable.
+Print Assumptions C18_step_preserves_invariant.
+Print Assumptions C18_every_packet_justified.
+Print Assumptions C18_known_class_witness.
 Print Assumptions C18_history_refuted_selection_while_absent.
+Print Assumptions C18_history_hypotheses_example.
 Print Assumptions C18_goodbye_repeat_on_its_interface.
+Print Assumptions C18_check_forgets_removed_interfaces.
+Print Assumptions C18_removal_example.
 Print Assumptions C18_history_example.
